@@ -734,6 +734,23 @@ TrXNextAt == IsOp("x_next_at") /\ KeepD /\ KeepS /\ KeepW /\ UNCHANGED sw /\ IsE
                     moved == IF E.next THEN M!DAdd(e.v, B!Mul(B!FromInt(k), Ur[7])) ELSE M!DSub(e.v, B!Mul(B!FromInt(k), Ur[7]))
                 IN  /\ e' = X!Ep(e.ts, X!WithHms(moved, Mg(E.h), B!Zero, B!Zero, TRUE))
                     /\ EpIs(E.res, e') /\ eout' = <<"epoch", e'>>
+(* month and weekday names *)
+TrXMonth == IsOp("x_month") /\ KeepAll /\ UNCHANGED sw
+               /\ E.m = X!MonthOfU8(E.b) /\ E.long = X!MonthLongC[E.m] /\ E.short = X!First3(X!MonthLongC[E.m])
+               /\ E.back_long = E.m /\ E.back_short = E.m /\ E.back_upper = E.m
+TrXWeekdayName == IsOp("x_wdname") /\ KeepAll /\ UNCHANGED sw
+               /\ E.long = X!WeekdayLongC[E.w + 1] /\ E.short = X!First3(X!WeekdayLongC[E.w + 1]) /\ E.back_long = E.w /\ E.back_short = E.w
+(* Display of the current series *)
+TrXSeriesText == IsOp("x_series_text") /\ KeepAll /\ UNCHANGED sw /\ Has(E.res, "v")
+               /\ ((ser.k = 0 /\ X!Fields(ser.start.ts, ser.start.v)[1] \in 1..9999
+                      /\ X!Fields(ser.start.ts, M!DAdd(ser.start.v, ser.span))[1] \in 1..9999) => E.res.v = X!SeriesText(ser))
+(* Hash agrees with identity of the value: two durations (epochs) built in different ways with the same count *)
+(* (and scale) hash alike                                                                                     *)
+TrXHash == IsOp("x_hash") /\ KeepAll /\ UNCHANGED sw
+               /\ (DV(E.a) = DV(E.b) => E.same_dur)
+               /\ ((DV(E.a) = DV(E.b) /\ E.ta = E.tb) => E.same_epoch)
+(* iteration over a leap second provider with next() and next_back() mixed *)
+TrXLeapIter == IsOp("x_leap_iter") /\ KeepAll /\ UNCHANGED sw /\ Has(E.res, "v") /\ E.res.v = X!LeapIter(E.calls, E.len)
 Dev_F1X == /\ Open("F1") /\ IsOp("x_approx") /\ KeepE /\ KeepS /\ KeepW /\ IsDur(E.res)
            /\ d' = M!F1Round(d, Ur[X!LargestUnit(d)]) /\ d' \notin X!ApproxSet(d) /\ DurIs(E.res, d') /\ out' = <<"dur", d'>>
            /\ Known("F1")
@@ -741,6 +758,7 @@ ExtrasNext ==
   \/ Dev_F1X
   \/ TrXApprox \/ TrXConsts \/ TrXUnitU8 \/ TrXScaleU8 \/ TrXWithHms \/ TrXWithTimeFrom \/ TrXFreq
   \/ TrXNextBack \/ TrXLen \/ TrXNextAt
+  \/ TrXMonth \/ TrXWeekdayName \/ TrXSeriesText \/ TrXHash \/ TrXLeapIter
 
 -----------------------------------------------------------------------------
 TraceInit == l = Start /\ M!DInit /\ X!EInit /\ sw = B!Zero /\ X!SInit /\ W!WInit
